@@ -5,7 +5,10 @@ ID=$1; W=${SEEDROOT:-/tmp/seed}/$ID
 export GOFLAGS=-mod=readonly GOPROXY=off GOSUMDB=off GOTOOLCHAIN=local
 cd $W || exit 2
 [ -f change.patch ] || { echo "no change.patch"; exit 2; }
-git checkout -q -- . ; git apply change.patch || { echo "PATCH DOES NOT APPLY"; exit 2; }
+git checkout -q -- .
+# files the change creates are still lying in the worktree: remove them before applying
+for f in $(awk '/^--- \/dev\/null/{getline; sub(/^\+\+\+ b\//,""); print}' change.patch); do rm -f "$f"; done
+git apply change.patch || { echo "PATCH DOES NOT APPLY"; exit 2; }
 go build ./... || { echo "DOES NOT BUILD"; exit 2; }
 echo "== tests with change"; go test -count=1 ./... 2>&1 | grep -v "^---\|^    \|^=== " | tail -4
 run_demo() {
@@ -17,7 +20,7 @@ run_demo() {
   for t in $(ls */demo_test.go demo_test.go 2>/dev/null); do go test -count=1 -run Demo ./$(dirname $t) > $1.gotest 2>&1; echo "gotest rc=$?" >> $1; done
 }
 run_demo ${SEEDROOT:-/tmp/seed}/$ID.with
-git checkout -q -- $(git diff --name-only)
+git apply -R change.patch
 run_demo ${SEEDROOT:-/tmp/seed}/$ID.without
 git apply change.patch
 echo "== demo diff (without vs with):"; diff ${SEEDROOT:-/tmp/seed}/$ID.without ${SEEDROOT:-/tmp/seed}/$ID.with | head -20
